@@ -610,6 +610,41 @@ def m_partial_eq(e, st, fr, t, a):
     return VScalar(r)
 
 
+def m_poll_map_err(e, st, fr, t, a):
+    """Poll::<Result<T, E>>::map_err(p, f): Ready(Err(x)) -> Ready(Err(f(x))), everything else unchanged"""
+    pv, f = a
+    d = e.concrete_int(st, e.discriminant_of(st, pv))
+    if d is None:
+        raise Unsupported("Poll::map_err on a symbolic Poll")
+    if d != 0:
+        return pv
+    r = e.get_field(pv, ('v', 'Ready', 0))
+    if _res_disc(e, st, r, 'Poll::map_err') == 0:
+        return pv
+    x = e.get_field(r, ('v', 'Err', 0))
+    if isinstance(f, VConst) and '{closure' not in f.text:
+        # a conversion fn item (Into::into / From::from): the error keeps its identity, wrapped like `?` does
+        from sysmodels import _describe
+        conv = VAgg(name='ActorError', fields={('f', 0): x}, extra={'from': _describe(x)})
+        return VAgg(name='Poll', vname='Ready', disc=0, fields={('v', 'Ready', 0): err(conv)})
+    y = e.sys.call_closure_sync(st, f, [x])
+    return VAgg(name='Poll', vname='Ready', disc=0, fields={('v', 'Ready', 0): err(y)})
+
+
+def m_poll_map_ok(e, st, fr, t, a):
+    pv, f = a
+    d = e.concrete_int(st, e.discriminant_of(st, pv))
+    if d is None:
+        raise Unsupported("Poll::map_ok on a symbolic Poll")
+    if d != 0:
+        return pv
+    r = e.get_field(pv, ('v', 'Ready', 0))
+    if _res_disc(e, st, r, 'Poll::map_ok') == 1:
+        return pv
+    y = e.sys.call_closure_sync(st, f, [e.get_field(r, ('v', 'Ok', 0))])
+    return VAgg(name='Poll', vname='Ready', disc=0, fields={('v', 'Ready', 0): ok(y)})
+
+
 def m_poll_is_ready(e, st, fr, t, a):
     p = deref_arg(e, st, a[0])
     d = e.concrete_int(st, e.discriminant_of(st, p))
@@ -668,6 +703,8 @@ def install(eng: Engine):
     add(r'^(core::bool::<impl )?bool>?::then_some::<', m_bool_then_some)
     add(r'^<.* as PartialEq(<.*>)?>::ne$', m_partial_ne)
     add(r'^<.* as PartialEq(<.*>)?>::eq$', m_partial_eq)
+    add(r'^(std::task::)?Poll::<.*>::map_err::<', m_poll_map_err)
+    add(r'^(std::task::)?Poll::<.*>::map_ok::<', m_poll_map_ok)
     add(r'^(std::task::)?Poll::<.*>::is_ready$', m_poll_is_ready)
     add(r'^(std::task::)?Poll::<.*>::is_pending$', m_poll_is_pending)
     add(r'^(std::thread::)?panicking$', m_thread_panicking)
